@@ -100,6 +100,10 @@ BENIGN = [
          edits=[(X25519, "if res.as_bytes().ct_eq(&[0u8; 32]).into() {", "if res.as_bytes() == &[0u8; 32] {")]),
     dict(name='b-x25519-was-contributory', props=['C10'],
          edits=[(X25519, "if res.as_bytes().ct_eq(&[0u8; 32]).into() {", "if !res.was_contributory() {")]),
+    dict(name='b-x25519-unwrap-u8-eq-1', props=['C10', 'C13'],
+         edits=[(X25519, "if res.as_bytes().ct_eq(&[0u8; 32]).into() {", "if res.as_bytes().ct_eq(&[0u8; 32]).unwrap_u8() == 1 {")]),
+    dict(name='b-x25519-unwrap-u8-ne-0', props=['C10', 'C13'],
+         edits=[(X25519, "if res.as_bytes().ct_eq(&[0u8; 32]).into() {", "if res.as_bytes().ct_eq(&[0u8; 32]).unwrap_u8() != 0u8 {")]),
     dict(name='b-x25519-early-return', props=['C10'],
          edits=[(X25519, """        if res.as_bytes().ct_eq(&[0u8; 32]).into() {
             Err(DhError)
